@@ -206,6 +206,8 @@ def install_native_replayer(ctx):
     def replayer(ctx2, ob, model):
         m = re.search(r'sopclass\.([A-Za-z_\.]+)', ob.name)
         prov = m.group(1).split('[')[0] if m else None
+        if ob.name.startswith('pynetdicom2.c_find'):
+            prov = 'c_find'
         if prov and prov.startswith('StorageCommitment.'):
             prov = prov
         r = replay.run_native('services.py', {'provider': prov}, timeout=300)
